@@ -1755,7 +1755,9 @@ package mcp
 // unmarshalParams of every method (the closure built by newMethodInfo): parameters that do not decode are rejected as
 // invalid params (-32602), never dropped or passed on; when decoding succeeded any rejection is an invalid request
 // (-32600: required params missing or null); a rejection hands back no params.
-//@ func newMethodInfo$1 [C02]
+//@ func newMethodInfo$1 [C02, C19]
+// (C19: the params of every incoming message are decoded with the SDK's case-sensitive decoder, internal/json - never
+// with encoding/json, which also accepts mis-cased member names)
 //@   track internal/json.Unmarshal as dec
 //@   assume nowrapinvalidparams != "1"   // default debug setting
 //@   modifies *
